@@ -739,8 +739,22 @@ def validateInsert (stmt : Node) : Res Unit :=
 
 def supportedStmtKinds : List String := ["SelectStmt", "DeleteStmt", "InsertStmt", "TruncateStmt", "UpdateStmt"]
 
+/-- the distinct numbers (Go: the key set of `seen` in validate.ParamRef) -/
+def distinctNums : List Nat → List Nat
+  | [] => []
+  | n :: ns => if n ∈ distinctNums ns then distinctNums ns else n :: distinctNums ns
+
+/-- validate.ParamRef: the first number in 1..len(seen) that no placeholder carries, if any -/
+def paramRefCheck (nums : List Nat) : Option Nat :=
+  (List.range' 1 (distinctNums nums).length).find? (fun i => !nums.contains i)
+
+/-- the numbers of every ParamRef of a tree, in walk order -/
+def paramNumbers (raw : Node) : List Nat :=
+  (raw.search (·.isKind "ParamRef")).map (fun n => (n.get "Number").natVal)
+
 /-- the checks parseQuery makes before the analysis proper; `early` / `late` are the verdicts of the
-validators that are not modelled (ParamStyle, ParamRef | Pluck, FuncCall, metadata.Parse, Cmd) -/
+validators that enter as data (ParamStyle | Pluck, FuncCall, metadata.Parse, Cmd); validate.ParamRef is decided
+by `paramRefCheck` (the driver computes `early` from it for positional statements) -/
 def preflight (raw : Node) (early late : Bool) : Res Unit :=
   if early then .error "other:validate" else
   let stmt := raw.get "Stmt"
